@@ -991,9 +991,16 @@ class _FPS(GreedySelector):
 
         if isinstance(self.initialize, (np.ndarray, list)):
             if all(isinstance(i, numbers.Integral) for i in self.initialize):
-                for i, val in enumerate(self.initialize):
-                    self.selected_idx_[i] = val
-                    self._update_post_selection(X, y, self.selected_idx_[i])
+                try:
+                    for i, val in enumerate(self.initialize):
+                        self.selected_idx_[i] = val
+                        self._update_post_selection(X, y, self.selected_idx_[i])
+                except IndexError:
+                    # more entries than n_to_select, or an index outside the data:
+                    # the selections made so far must not survive the failed fit
+                    # (a later warm start would take the selector for a fitted one)
+                    self.n_selected_ = 0
+                    raise
             else:
                 raise ValueError("Invalid value of the initialize parameter")
         elif self.initialize == "random":
